@@ -158,13 +158,15 @@ var (
 	r7  = conOp{K: "url", Strict: true, P: "/posts/{id}", Params: map[string]string{"id": "7"}}
 	r8  = conOp{K: "url", Strict: false, P: "/posts/{id}", Params: map[string]string{"id": "7"}}
 	r9  = conOp{K: "serve", Req: hv.Req{Method: "POST", Path: "/posts/author"}}
+	r10 = conOp{K: "url", Strict: true, P: "/posts/author"} // the node a concurrent Handle(/posts/abc) splits
+	r11 = conOp{K: "url", Strict: true, P: "/x/f"}
 )
 
 func c06Scenarios(quick bool) []scenario {
 	setup := c06Setup()
 	cfg := RouterCfg{Lock: true}
 	wseq := [][]conOp{{w1}, {w2}, {w3}, {w4a}, {w4b}, {w5a}, {w5b}, {w6}, {w1, w2}, {w4a, w4b}, {w3, w6}, {w5a, w4b}}
-	rseq := [][]conOp{{r1}, {r2}, {r3}, {r4}, {r5}, {r6}, {r7}, {r8}, {r9}, {r3, r3}, {r1, r2}, {r6, r3}, {r4, r7}}
+	rseq := [][]conOp{{r1}, {r2}, {r3}, {r4}, {r5}, {r6}, {r7}, {r8}, {r9}, {r10}, {r11}, {r3, r3}, {r1, r2}, {r6, r3}, {r4, r7}}
 	var out []scenario
 	name := func(ts ...[]conOp) string {
 		var parts []string
@@ -195,7 +197,7 @@ func c06Scenarios(quick bool) []scenario {
 	r3s := [][]conOp{{r1}, {r3}, {r4}, {r6}}
 	if !quick {
 		w3s = wseq[:8]
-		r3s = rseq[:9]
+		r3s = rseq[:11]
 	}
 	for i, a := range w3s {
 		for _, b := range w3s[i:] {
